@@ -13,7 +13,7 @@ namespace TxV.Drv.Cfg
 open TxV TxV.Drv TxV.Config
 
 def decTexts (sep : String) (s : String) : Option (List (List Char)) :=
-  if s = "-" then some [] else (s.splitOn sep).mapM Hex.decodeText
+  if s = "-" then some [] else (s.splitOn sep).mapM fun t => if t = "e" then some [] else Hex.decodeText t   -- `e`: the empty text
 
 def encTexts (l : List (List Char)) : String := if l.isEmpty then "-" else ",".intercalate (l.map Hex.encText)
 
